@@ -74,6 +74,7 @@ def plan(tier, seed):
         specs.append({"name": f"hist-{first}", "kind": "histories", "first": first, "depth": depth, "extra_random_depth4": 150 if q else 0})
     for i in range(4):
         specs.append({"name": f"random-{i}", "kind": "random", "n": 120 if q else 2500})
+    specs.append({"name": "adjacent", "kind": "adjacent"})
     specs.append({"name": "async-orders", "kind": "async_orders", "kmax": 3 if q else 4})
     specs.append({"name": "threads", "kind": "threads", "rounds": 6 if q else 60})
     return specs
@@ -308,6 +309,28 @@ def run_random(spec, rec: Recorder):
         loop.close()
 
 
+def run_adjacent(spec, rec: Recorder):
+    """Every pair of adjacent positions around each L1 roll-over and around equality, in both orders, on one cache
+    without a root key (seed keys come from the DC), followed by a protect whose clock sits in the second interval."""
+    mon.KDFS.install()
+    w = World(spec)
+    loop = asyncio.new_event_loop()
+    asyncio.set_event_loop(loop)
+    n = 0
+    try:
+        for k in range(31):
+            pairs = [((k, 31), (k + 1, 0)), ((k + 1, 0), (k, 31)), ((k, 30), (k, 31)), ((k, 31), (k, 30)), ((k, 31), (k, 31)), ((k + 1, 0), (k + 1, 1)), ((k + 1, 1), (k + 1, 0))]
+            for a, b in pairs:
+                for sid in ((SID_A,) if k % 5 else (SID_A, SID_B)):
+                    h = [("U", 0, sid, L0A, a), ("U", 0, sid, L0A, b), ("U", 0, sid, L0A, a)]
+                    run_history(rec, w, h, "adjacent", loop if k % 2 else None)
+                    n += 1
+        rec.mark_exhaustive("adjacent position pairs (k,31)/(k+1,0), (k,30)/(k,31), equality, (k+1,0)/(k+1,1) for k in 0..30, both orders")
+        rec.sample({"kind": "adjacent", "histories": n, "example": [str(x) for x in h]})
+    finally:
+        loop.close()
+
+
 # --- concurrent async calls, forced completion orders --------------------------------------
 def run_async_orders(spec, rec: Recorder):
     import dpapi_ng
@@ -531,7 +554,7 @@ def run_threads(spec, rec: Recorder):
 def run_shard(spec, rec: Recorder):
     if not common.calibrate(rec, "crypto", "gkdi", "sd", "cms", "rpc", "epm"):
         return
-    {"histories": run_histories, "random": run_random, "async_orders": run_async_orders, "threads": run_threads}[spec["kind"]](spec, rec)
+    {"histories": run_histories, "random": run_random, "adjacent": run_adjacent, "async_orders": run_async_orders, "threads": run_threads}[spec["kind"]](spec, rec)
 
 
 def replay(body, rec: Recorder):
